@@ -12,6 +12,15 @@ Line-protocol driver for C05 (op grammar: harness/hx-c05/src/bin/c05.rs).
 `<views>` is one word, view+ with
   view := 'T' hex ';' | 'U' | 'E' tag ';' attr* '>' view* '<' | 'P' view* ')' | 'N' | 'S' view
         | 'L' view | 'R' view | 'V' view* ']'
+        | 'I' view (InertElement) | 'K' key* ']' | 'k' key* ']' (keyed lists) | 'Z' view | 'z' (Result)
+        | '#' digits ';' (u32) | 'a' hex ';' (Arc<str>) | 'c' hex ';' (Cow<str>) | '3' i view (EitherOf3)
+        | 'Y' view* ')' ([AnyView; N]) | 'W' view (OwnedView) | 'F' view (closure)
+These share `to_html` / `hydrate` / `rebuild` with modelled constructors and are decoded as such:
+`InertElement(html of v)` = the static element `v` (its children are not walked by the real code, which
+no observable shows), `keyed` = `Vec` of the item views (same marker; rebuild = the keyed diff, whose
+result C11 proves equal to the unkeyed one up to node identity), `Result` = `Option`, numbers and the other
+string types = `String`, `EitherOf3` = `.either 3`, arrays = tuples, `OwnedView` = transparent, a
+closure = an `AnyView` whose rebuild always replaces (different type tags on the two sides).
   attr := 'A' hex ';' hex ';' | 'B' hex ';' ('0'|'1') | 'O' hex ';' ('-' | 's' hex ';')
 Every nested view is an `AnyView` in the harness, hence `.any (tyOf v) v` here; the type tag is the
 erased Rust type (`HtmlElement<E, (Vec<AnyAttribute>,), (AnyView, ..)>`, tuples of `AnyView`,
@@ -54,6 +63,18 @@ partial def tyOf : View → Ty
 
 def wrap (v : View) : View := .any (tyOf v) v
 
+/-- the static subtree of an `InertElement`: on the client it is built by parsing the HTML string, so a
+child-less element gets no placeholder comment (`.tuple []`: no child nodes) and nothing is type-erased -/
+partial def inertify : View → View
+  | .elem tag as c =>
+    if Hydrate.isVoidT tag then .elem tag as .unit else
+    match c with
+    | .unit => .elem tag as (.tuple [])
+    | .tuple vs => .elem tag as (.tuple (vs.map inertify))
+    | c => .elem tag as (inertify c)
+  | .any _ v => inertify v
+  | v => v
+
 def tagCharOK (c : Char) : Bool := Html.nameChar c
 
 partial def parseAttrs (cs : List Char) (acc : List AttrVal) : Option (List AttrVal × List Char) :=
@@ -79,8 +100,22 @@ partial def parseAttrs (cs : List Char) (acc : List AttrVal) : Option (List Attr
     | _ => none
   | _ => none
 
+/-- decimal digits up to `;` -/
+def natField (cs : List Char) : Option (Nat × List Char) := do
+  let (ds, rest) ← untilSemi cs
+  if ds.isEmpty || !ds.all Char.isDigit then none
+  pure (ds.foldl (fun n c => n * 10 + (c.toNat - 48)) 0, rest)
+
+/-- hex fields up to `]` -/
+partial def parseKeys (cs : List Char) (acc : List String) : Option (List String × List Char) :=
+  match cs with
+  | ']' :: r => some (acc.reverse, r)
+  | _ => do
+    let (k, r) ← hexField cs
+    parseKeys r (k :: acc)
+
 mutual
-partial def parseView (cs : List Char) : Option (View × List Char) :=
+partial def parseView (sd : Nat) (cs : List Char) : Option (View × List Char) :=
   match cs with
   | 'T' :: r => do
     let (s, r) ← hexField r
@@ -90,40 +125,81 @@ partial def parseView (cs : List Char) : Option (View × List Char) :=
     let (tag, r) ← untilSemi r
     if tag.isEmpty || !tag.all tagCharOK then none
     let (attrs, r) ← parseAttrs r []
-    let (kids, r) ← parseSeq (some '<') r []
+    let (kids, r) ← parseSeq sd (some '<') r []
     if kids.length > 6 then none
     let child := if kids.isEmpty then View.unit else .tuple (kids.map wrap)
     pure (.elem (String.ofList tag) attrs child, r)
   | 'P' :: r => do
-    let (kids, r) ← parseSeq (some ')') r []
+    let (kids, r) ← parseSeq sd (some ')') r []
     if kids.isEmpty || kids.length > 6 then none
     pure (.tuple (kids.map wrap), r)
   | 'N' :: r => some (.onone, r)
   | 'S' :: r => do
-    let (v, r) ← parseView r
+    let (v, r) ← parseView sd r
     pure (.osome (wrap v), r)
   | 'L' :: r => do
-    let (v, r) ← parseView r
+    let (v, r) ← parseView sd r
     pure (.either 2 0 (wrap v), r)
   | 'R' :: r => do
-    let (v, r) ← parseView r
+    let (v, r) ← parseView sd r
     pure (.either 2 1 (wrap v), r)
   | 'V' :: r => do
-    let (kids, r) ← parseSeq (some ']') r []
+    let (kids, r) ← parseSeq sd (some ']') r []
     pure (.vec (kids.map wrap), r)
+  -- the other `RenderHtml` implementors, expressed through the constructors whose `to_html` / `hydrate` /
+  -- `rebuild` they share (see the table in the header)
+  | 'I' :: r => do
+    let (v, r) ← parseView sd r
+    -- `InertElement::rebuild` replaces the element when the HTML string differs: the string is the type tag
+    let v' := inertify v
+    pure (.any (.elem ("#inert:" ++ String.ofList (toHtml v')) [] .unit) v', r)
+  | 'K' :: r => do
+    let (ks, r) ← parseKeys r []
+    pure (.any (.vec (.elem "b" [] .text)) (.vec (ks.map fun k => View.elem "b" [] (.tuple [.text k]))), r)
+  | 'k' :: r => do
+    let (ks, r) ← parseKeys r []
+    pure (.any (.vec .text) (.vec (ks.map View.text)), r)
+  | 'Z' :: r => do
+    let (v, r) ← parseView sd r
+    pure (.any (.opt .unit) (.osome (wrap v)), r)
+  | 'z' :: r => some (.any (.opt .unit) .onone, r)
+  | '#' :: r => do
+    let (n, r) ← natField r
+    pure (.any (.elem "#u32" [] .unit) (.text (toString n)), r)
+  | 'a' :: r => do
+    let (s, r) ← hexField r
+    pure (.any (.elem "#arc" [] .unit) (.text s), r)
+  | 'c' :: r => do
+    let (s, r) ← hexField r
+    pure (.any (.elem "#cow" [] .unit) (.text s), r)
+  | '3' :: i :: r => do
+    if i != '0' && i != '1' && i != '2' then none
+    let (v, r) ← parseView sd r
+    pure (.either 3 (i.toNat - 48) (wrap v), r)
+  | 'Y' :: r => do
+    let (kids, r) ← parseSeq sd (some ')') r []
+    if kids.isEmpty || kids.length > 3 then none
+    pure (.any (.elem "#array" [] (.tuple (kids.map fun _ => .any))) (.tuple (kids.map wrap)), r)
+  | 'W' :: r => do
+    let (v, r) ← parseView sd r
+    pure (.any (.either [.text]) (wrap v), r)
+  | 'F' :: r => do
+    let (v, r) ← parseView sd r
+    -- `rebuild` of a closure always builds the new effect and replaces the old one: two different tags
+    pure (.any (.either (if sd = 0 then [] else [.unit])) (wrap v), r)
   | _ => none
-partial def parseSeq (close : Option Char) (cs : List Char) (acc : List View) : Option (List View × List Char) :=
+partial def parseSeq (sd : Nat) (close : Option Char) (cs : List Char) (acc : List View) : Option (List View × List Char) :=
   match cs with
   | [] => if close.isNone then some (acc.reverse, []) else none
   | c :: r =>
     if some c = close then some (acc.reverse, r) else do
-      let (v, r) ← parseView (c :: r)
-      parseSeq close r (v :: acc)
+      let (v, r) ← parseView sd (c :: r)
+      parseSeq sd close r (v :: acc)
 end
 
 /-- the top-level view: the tuple of the decoded views, itself an `AnyView` -/
-def decodeTop (w : String) : Option View :=
-  match parseSeq none w.toList [] with
+def decodeTop (sd : Nat) (w : String) : Option View :=
+  match parseSeq sd none w.toList [] with
   | some (vs, []) => if vs.isEmpty || vs.length > 6 then none else some (wrap (.tuple (vs.map wrap)))
   | _ => none
 
@@ -207,9 +283,9 @@ def opMis (a c : View) : String :=
     let created := match r with | .ok o => o.created | .error _ => 0
     s!"tree={orDash (encH ts)} hyd={outcomeStr d r} created={created}"
 
-def decodeSeq (w : String) : Option (List View) :=
+def decodeSeq (sd : Nat) (w : String) : Option (List View) :=
   if w == "-" then some [] else
-  match parseSeq none w.toList [] with
+  match parseSeq sd none w.toList [] with
   | some (vs, []) => some (vs.map wrap)
   | _ => none
 
@@ -220,20 +296,20 @@ def outcomeU (d : Dom) : Except HydrationError Unit → String
   | .error (.element _ f) => s!"err:element:{kindLetter d f}"
 
 /-- `frag <tag> <pre> <itemsA> <itemsB> <post>`: `<tag>` with children `pre…, Fragment(items), post…` -/
-def opFrag (tag : String) (pre itemsA itemsB post : List View) : String :=
+def opFrag (tag : String) (pre itemsA itemsB post preB postB : List View) : String :=
   let kids := pre ++ itemsA ++ post
   let htmlS := toHtml (.elem tag [] (.tuple kids))
   let head := s!"html={orDash (hexOfString (String.ofList htmlS))}"
   match Html.parse htmlS with
   | none => s!"{head} tree=none ## fail parse-none"
   | some ts =>
-    let h := runFragHydrated false ts tag pre itemsA itemsB post
-    let c := runFragCsr tag pre itemsA itemsB post
+    let h := runFragHydrated false ts tag pre itemsA itemsB post preB postB
+    let c := runFragCsr tag pre itemsA itemsB post preB postB
     let d0 := (loadRoot ts).1
     match h.outcome with
     | .error _ => s!"{head} tree={orDash (encH ts)} hyd={outcomeU d0 h.outcome} created=0 ## fail hydration-error"
     | .ok _ =>
-      let good := fragLikeCsr false ts tag pre itemsA itemsB post
+      let good := fragLikeCsr false ts tag pre itemsA itemsB post preB postB
       let panicked := !h.errs.isEmpty
       s!"{head} tree={orDash (encH ts)} hyd=ok created={h.created} panic={if panicked then 1 else 0} after={orDash (encD h.kids)} csr={orDash (encD c.1)} ## {if good then "ok" else "fail unexplained"}"
 
@@ -242,16 +318,17 @@ def step (_ : Unit) (line : String) : Unit × String :=
     match words line with
     | ["case", n] => s!"case {n}"
     | ["hyd", a, b] =>
-      match decodeTop a, decodeTop b with
+      match decodeTop 0 a, decodeTop 1 b with
       | some a, some b => opHyd a b
       | _, _ => "bad-op"
     | ["frag", tag, p, ia, ib, q] =>
-      match decodeSeq p, decodeSeq ia, decodeSeq ib, decodeSeq q with
-      | some p, some ia, some ib, some q =>
-        if (p ++ ia ++ q).length > 5 || tag.isEmpty || !tag.toList.all tagCharOK then "bad-op" else opFrag tag p ia ib q
-      | _, _, _, _ => "bad-op"
+      match decodeSeq 0 p, decodeSeq 0 ia, decodeSeq 1 ib, decodeSeq 0 q, decodeSeq 1 p, decodeSeq 1 q with
+      | some p, some ia, some ib, some q, some pB, some qB =>
+        if (p ++ ia ++ q).length > 5 || tag.isEmpty || !tag.toList.all tagCharOK then "bad-op"
+        else opFrag tag p ia ib q pB qB
+      | _, _, _, _, _, _ => "bad-op"
     | ["mis", a, c] =>
-      match decodeTop a, decodeTop c with
+      match decodeTop 0 a, decodeTop 0 c with
       | some a, some c => opMis a c
       | _, _ => "bad-op"
     | _ => "bad-op"
